@@ -58,7 +58,10 @@ def variants(base, items, rng, all_positions):
         for handlers in (False, True):
             d = flat.FlatDesc.from_json(copy.deepcopy(base.to_json()))
             kind = 4 if rng.random() < 0.35 else 3
-            d.script[(cid, k)] = ((), ('raise', kind, rng.randrange(3)))
+            nn = rng.randrange(3)
+            if rng.random() < 0.2:      # a builtin exception type (KeyError, IndexError, OSError, LookupError, …)
+                kind, nn = rng.choice([2, 6, 7, 8, 9, 10]), 0
+            d.script[(cid, k)] = ((), ('raise', kind, nn))
             extra = None
             if handlers:
                 hid = max(d.cb_slot) + 1
@@ -78,7 +81,7 @@ def variants(base, items, rng, all_positions):
                 for kk in range(6):
                     d.script.setdefault((f, kk), ((), ('raise', 4 if rng.random() < 0.5 else 3, 1)))
                 extra = (extra + '+' if extra else '') + 'finalize-raises'
-            yield d, {'pos': pos, 'slot': common.SLOTS[it[1]], 'handlers': handlers, 'exc': 'Base' if kind == 4 else 'User',
+            yield d, {'pos': pos, 'slot': common.SLOTS[it[1]], 'handlers': handlers, 'exc': {3: 'User', 4: 'Base'}.get(kind, 'builtin-%d' % kind),
                       'extra': extra}
 
 
@@ -407,6 +410,20 @@ def na_oracle(d, setup, clean, X, cid, k, handlers):
         elif not hraised:
             if o[0] != 'ret':
                 out.append(('handled-exception-still-raised', dict(info, outcome=common.show_item(o))))
+    # a failure at or before the source's exit callbacks leaves the state the model had when the event started
+    # (a hierarchical event may run one transition per parallel region, so "started" means the contiguous run of
+    # pre-state-change callbacks — prepare … on_exit — of this event that ends at the failing call)
+    if X[pcall][1] <= SLOT['on_exit']:
+        first = X[pcall]
+        for it in reversed(X[:pcall]):
+            if it[0] != 'call':
+                continue
+            if it[4] != tag or it[3] != m or it[1] > SLOT['on_exit'] or it[1] == SLOT['prepare_event']:
+                break
+            first = it
+        if first[5] != st_at:
+            out.append(('state-already-changed-at-or-before-the-exit-callbacks',
+                        dict(info, at_transition_start=first[5], at_failure=st_at)))
     # state: frozen from the failure on (no rollback, nothing else)
     bad_state = [it for it in calls if it[4] == tag and it[3] == m and it[5] != st_at]
     if bad_state and not in_fin:
@@ -444,7 +461,10 @@ def na_judge(case):
                 continue
             d = na_clone(base)
             kind = 4 if rng.random() < 0.35 else 3
-            d.script[(cid, k)] = ((), ('raise', kind, rng.randrange(3)))
+            nn = rng.randrange(3)
+            if rng.random() < 0.3:      # a builtin exception type (KeyError, IndexError, OSError, LookupError, …)
+                kind, nn = rng.choice([2, 6, 7, 7, 8, 9, 10]), 0
+            d.script[(cid, k)] = ((), ('raise', kind, nn))
             handlers = []
             if with_h:
                 hid = max(d.cb_slot) + 1
